@@ -32,3 +32,9 @@ def jobs(tier):
                       symbolic=["op[0..L)", "dtor installed"], bounds="L=%d" % L, native=NATIVE,
                       timeout=900 if tier == "quick" else 3000))
     return js
+
+
+MANIFEST = {
+    "text": 'Bounded model checking of queue.c/stack.c/list.c: inductive step from an arbitrary well-formed chain (length <= N) with one operation or iterator edit at a symbolic position followed by an observation suffix, plus all operation scripts of length <= L from empty, against an array model',
+    "note": 'pre-state = representation invariant (shown to be established by the API in the script harnesses); lengths above N and scripts above L are outside the claim',
+}
